@@ -115,6 +115,14 @@ func NewHTTPStoreCache(key []byte, store store.Store) *httpCache {
 	return hc
 }
 
+// detachStore detach the store from http cache,
+// the cache (removed from dispatcher) will not be saved to store any more
+func (hc *httpCache) detachStore() {
+	hc.mu.Lock()
+	defer hc.mu.Unlock()
+	hc.store = nil
+}
+
 // Get get http cache
 func (hc *httpCache) Get() (status Status, response *HTTPResponse) {
 	status, response, _ = hc.GetWithAge()
